@@ -417,7 +417,7 @@ class ComplexPrior(TransformedPrior):
         pure real.
         '''
         self.transformation = complex
-        self.base_prior = [real, imag]
+        self.base_prior = (real, imag)
         self.name = name
 
     @property
